@@ -237,7 +237,7 @@ impl<AnyLoader: Loader> Context<AnyLoader> {
         };
         // Note: Should a "full stack" of bases be used here?
         // Or is this fine?
-        let url = relative(&from, url);
+        let url = normalize(relative(&from, url));
         if let Some((path, mut file)) = self.do_find_file(&url, names)? {
             let is_module = !from.is_import();
             let source = from.url(&path);
@@ -314,6 +314,25 @@ fn relative<'a>(base: &SourceKind, url: &'a str) -> Cow<'a, str> {
                 .map(|base| format!("{base}{url}").into())
         })
         .unwrap_or_else(|| url.into())
+}
+
+/// Collapse `.` and `..` segments, so different spellings of the same
+/// url (`a`, `./a`, `d/../a`) name the same file.
+fn normalize(url: Cow<str>) -> Cow<str> {
+    if !url.split('/').any(|seg| seg == "." || seg == "..") {
+        return url;
+    }
+    let mut result: Vec<&str> = Vec::new();
+    for seg in url.split('/') {
+        match seg {
+            "." => (),
+            ".." if result.last().is_some_and(|l| !l.is_empty() && *l != "..") => {
+                result.pop();
+            }
+            seg => result.push(seg),
+        }
+    }
+    result.join("/").into()
 }
 
 impl<T: fmt::Debug> fmt::Debug for Context<T> {
